@@ -241,8 +241,20 @@ def gen_noise(rng, same_line):
     return "x" if same_line else "x\n"
 
 
+HOSTILE = [rs.MARKER, rs.MARKER, rs.LINE_PREFIX, "{", "}", "}", "{}", "\n", "\n", "\r", "\r\n", " ", "x", "\"", "[", "]: ", "[tune-",
+           rs.TAG, "{\"a\": 1}", "{\"a\": {\"b\": 2}}", "}\n", "é", "\x0b", "\x85", " ", "\x00", "[" + rs.TAG + "]:{", "\\"]
+
+
+def gen_scan(rng):
+    """arbitrary text around markers: forged markers, several markers on one line, noise behind a
+    report, unterminated lines, empty groups"""
+    n = rng.randint(1, 4)
+    lines = ["".join(rng.choice(HOSTILE) for _ in range(rng.randint(0, 10))) for _ in range(n)]
+    return {"lines": lines, "local": rng.random() < 0.5}
+
+
 def gen_case(rng, tier, flavour=None):
-    flavour = flavour or rng.choice(["mixed"] * 20 + ["valid"] * 8 + ["rejects"] * 4 + ["addtime"] * 4 + ["cost"] * 3 + ["big"])
+    flavour = flavour or rng.choice(["mixed"] * 20 + ["valid"] * 8 + ["rejects"] * 4 + ["addtime"] * 4 + ["cost"] * 3 + ["big"] * 2)
     ctor = {"add_time": True}
     if flavour == "addtime" or (flavour == "mixed" and rng.random() < 0.1):
         ctor["add_time"] = False
@@ -298,11 +310,11 @@ def gen_case(rng, tier, flavour=None):
             ops.append({"op": "noise", "text": s})
             pending += s
     return {"ctor": ctor, "ops": ops, "retrieve": ["local"] if flavour == "big" else ["local", "keepends", "text"], "clean": True,
-            "t0": float(2 ** 30 + rng.randint(0, 10 ** 6)).hex()}
+            "t0": float(2 ** 30 + rng.randint(0, 10 ** 6)).hex(), "scans": [gen_scan(rng) for _ in range(rng.choice([0, 1, 2]))]}
 
 
 def gen_cases(rng, tier):
-    n = 150 if tier == "quick" else 2500
+    n = 300 if tier == "quick" else 4000
     for i in range(n):
         yield gen_case(rng, tier)
     # small-scope sweep: every noise shape x position around two fixed reports
@@ -477,6 +489,15 @@ def run_impl(spec):
     hist["payload_with_inner_brace_or_tag"] = tricky
     delivered = sum(1 for c in calls if c["exc"] is None)
     rejected = len(calls) - delivered
+    for inp, out in t["lines"]:
+        if inp.get("op") == "scan":
+            hist["scan:texts"] = hist.get("scan:texts", 0) + 1
+            hist["scan:groups"] = hist.get("scan:groups", 0) + len(out["found"])
+            for g in out["found"]:
+                try:
+                    json.loads(rs.from_cps(g))
+                except ValueError:
+                    hist["scan:groups-not-json"] = hist.get("scan:groups-not-json", 0) + 1
     hist["add_time:" + str(spec["ctor"].get("add_time", True))] = 1
     if t["dollar_cost"] is not None:
         hist["with_cost"] = 1
